@@ -83,8 +83,25 @@ let cmd_bodystruct () =
         if p = [] then "ROOT" else String.concat "." (List.map (fun k -> string_of_int (int_of_n k)) p)) cands))
     | _ -> print_endline "BADCASE")
 
+(* ---- builder: "<which> <hex a> <hex b>" -> "OK <hex args> <hex wire>" | REFUSED | PANIC ---- *)
+let cmd_builder () =
+  let tag1 = M.tag_of (n_of_int 1) in
+  iter_lines (fun line ->
+    match String.split_on_char ' ' line with
+    | [which; a; b] ->
+      let a = bytes_of_string (unhex a) and b = bytes_of_string (unhex b) in
+      let r = match which with
+        | "login" -> M.login a b | "list" -> M.list_cmd a b
+        | "select" -> M.select a | "examine" -> M.examine a | _ -> failwith "which" in
+      (match r with
+       | M.BOk args -> Printf.printf "OK %s %s\n" (hex (string_of_bytes args)) (hex (string_of_bytes (M.encode_request tag1 args)))
+       | M.BRefused -> print_endline "REFUSED"
+       | M.BPanic -> print_endline "PANIC")
+    | _ -> print_endline "BADCASE")
+
 let () =
   match Sys.argv.(1) with
+  | "builder" -> cmd_builder ()
   | "bodystruct" -> cmd_bodystruct ()
   | "tags" -> cmd_tags ()
   | c -> prerr_endline ("unknown sub-command " ^ c); exit 2
